@@ -191,7 +191,14 @@ def gen_case(tp, tier):
         if tp.draw(6) == 0:
             inner = [gen_op(tp, st, True) for _ in range(1 + tp.draw(6))]
             raise_at = tp.draw(len(inner) + 1) if tp.draw(3) == 0 else None
-            ops.append(['bind', inner, raise_at])
+            if tp.draw(4) == 0:
+                # `yield from s.sync()` in the middle of the block (only
+                # meaningful from a routine in real time, else a plain block)
+                cut = tp.draw(len(inner) + 1)
+                ops.append(['bindsync', inner[:cut], inner[cut:],
+                            tp.draw(4) == 0])
+            else:
+                ops.append(['bind', inner, raise_at])
         else:
             ops.append(gen_op(tp, st))
     knobs = C.gen_knobs(tp, fault_free_pm=300, max_steps=60000)
@@ -214,6 +221,15 @@ def shrink_candidates(case):
             yield c
         step //= 2
     for i, op in enumerate(ops):
+        if op[0] == 'bindsync':
+            c = copy.deepcopy(case)
+            c['ops'][i] = ['bind', op[1] + op[2], None]
+            yield c
+            for part in (1, 2):
+                for j in range(len(op[part]) - 1, -1, -1):
+                    c = copy.deepcopy(case)
+                    del c['ops'][i][part][j]
+                    yield c
         if op[0] == 'bind':
             for j in range(len(op[1]) - 1, -1, -1):
                 c = copy.deepcopy(case)
@@ -718,6 +734,9 @@ def run_world(case, tape, ctx, w):
             if op[0] == 'bind':
                 do_bind(op, t_logical)
                 continue
+            if op[0] == 'bindsync':
+                do_bind(['bind', op[1] + op[2], None], t_logical)
+                continue
             mark = mark_now()
             t_logical_window[0] = elapsed()
             try:
@@ -733,6 +752,101 @@ def run_world(case, tape, ctx, w):
             got = wire_since(mark)
             compare(op, exp, got, t_logical)
             bump('ops')
+
+    def flat_msgs(exp):
+        els = []
+        for e in exp:
+            if e[0] == 'm':
+                els.append(e[1])
+            else:
+                els.extend(e[2])
+        return els
+
+    def do_ops_gen(ops, t_logical):
+        """generator form for the routine: handles `bindsync`, everything
+        else goes through do_ops"""
+        for op in ops:
+            if viol or io_failed:
+                return
+            if op[0] == 'bindsync' and rt:
+                yield from do_bindsync(op)
+            elif op[0] == 'bindsync':
+                do_ops([['bind', op[1] + op[2], None]],
+                       main.current_tt._seconds)
+            else:
+                do_ops([op], main.current_tt._seconds)
+
+    def do_bindsync(op):
+        _, before, after, raise_after = op
+        addr0 = s.addr
+        mark = mark_now()
+        try:
+            with s.bind():
+                t1 = main.current_tt._seconds
+                exp_a = []
+                for iop in before:
+                    exp_a.extend(perform(iop))
+                if wire_since(mark):
+                    viol.add('C17-4', 'bind-leaks-before-exit',
+                             'a command inside a bind block reached the wire '
+                             'before sync()')
+                    return
+                yield from s.sync()
+                got = wire_since(mark)
+                els = flat_msgs(exp_a)
+                want = ([('b', latency, els)] if els else [])
+                if len(got) != len(want) + 1 or got[-1][0] != 'b' \
+                        or len(got[-1][2]) != 1 \
+                        or got[-1][2][0][0] != '/sync' \
+                        or not isinstance(got[-1][2][0][1], int):
+                    viol.add('C17-4', 'bind-sync-split',
+                             f'sync() inside a bind block after {len(els)} '
+                             f'command(s): wire has {[g[1:3] for g in got]}')
+                    return
+                if want:
+                    compare(['bindsync', 'first part'], want, got[:-1], t1)
+                bump('bind-sync')
+                mark2 = mark_now()
+                t2 = main.current_tt._seconds
+                exp_b = []
+                for iop in after:
+                    exp_b.extend(perform(iop))
+                if wire_since(mark2):
+                    viol.add('C17-4', 'bind-leaks-before-exit',
+                             'a command after sync() reached the wire before '
+                             'the block ended')
+                    return
+                if raise_after:
+                    raise Refused()
+        except Refused:
+            bump('F9-bind-raised')
+            if wire_since(mark2):
+                viol.add('C17-4', 'bind-sent-after-exception',
+                         'a bind block that raised after its sync() still '
+                         'sent the commands issued after the sync')
+            if s.addr is not addr0:
+                viol.add('C17-4', 'bind-address-not-restored',
+                         'server.addr is still the collecting proxy after '
+                         'the block raised')
+            return
+        except OSError:
+            bump('F6-send-error')
+            io_failed.append(op)
+            return
+        if s.addr is not addr0:
+            viol.add('C17-4', 'bind-address-not-restored',
+                     'server.addr is still the collecting proxy after the '
+                     'block')
+        els = flat_msgs(exp_b)
+        got = wire_since(mark2)
+        if not els:
+            if got:
+                viol.add('C17-4', 'bind-empty-sent',
+                         f'nothing was issued after sync() but the block '
+                         f'sent {got[0][1:3]}')
+            return
+        compare(['bindsync', 'second part'], [('b', latency, els)], got, t2,
+                True)
 
     def do_bind(op, t_logical):
         _, inner, raise_at = op
@@ -894,7 +1008,7 @@ def run_world(case, tape, ctx, w):
         fin = []
 
         def body():
-            do_ops(case['ops'], t0)
+            yield from do_ops_gen(case['ops'], t0)
             fin.append(1)
             yield 0
         r = sstm.Routine(body)
